@@ -403,7 +403,10 @@ def random_lru_case(rng):
     """a loader with a small cache bound, several load-and-render calls through it (any file,
     the root's among them, repeated), then the root: templates are evicted and parsed again"""
     case = random_case(rng)
-    while len(case['files']) < 2:
+    # acyclic graphs only: every call of a history over a cyclic graph runs into the recursion
+    # limit, which costs a second each (cycles are covered by the single-render cases)
+    while len(case['files']) < 2 or any(cyclic(dict(case, files=[f] + [g for g in case['files'] if g is not f]))
+                                        for f in case['files']):
         case = random_case(rng)
     names = [f['name'] for f in case['files']]
     case['root'] = {'kind': 'load', 'cls': rng.choice(['arg', 'default'])}
